@@ -9,7 +9,7 @@ PROPS = {
         level_text='Enumeration of single allocation faults (every allocation index in thorough tier, seeded sample in quick tier) over seeded scenarios of public-API operations on one simulated memory manager; oracle: no abnormal termination, no foreign/double free, no sanitizer report, failure surfaces as exception/status, fault-free balance is zero, a new transformer on the same manager works and is balanced. Sampling of scenarios, exhaustive over faults within a scenario (thorough).',
         level_note='Trusts: the refused allocation throws xercesc::OutOfMemoryException; Xerces-C/ICU are uninstrumented system binaries; scenarios come from the generator in sim/gen.hpp; one fault per execution.',
         design_ref='DESIGN.md section 7 (C19), 3.1, 5',
-        runs=dict(quick=256, thorough=1920), nchunks=dict(quick=8, thorough=16),
+        runs=dict(quick=192, thorough=1920), nchunks=dict(quick=8, thorough=16),
         nontrivial_counter=['faults_injected'],
         rule='One evaluation = one scenario (seeded history of new/compile/parse/transform/destroy/delete ops over generated '
              'stylesheets and documents on one SimMemoryManager) executed fault-free and then once per selected single fault (op i, k-th allocation); '
